@@ -113,9 +113,29 @@ def flow_table_starts_at_zero(ctx: Ctx, f):
     ctx.count("result dictionaries read straight from a table", n_bare)
 
 
+def _flow_written_only_while_augmenting(ctx: Ctx, f):
+    """Every unit of flow is pushed along a path the search found in the current residual network, with that path's
+    bottleneck: the flow table and the total are written inside the augmenting loop only (a warm start that fills
+    routes by hand has no bottleneck over arcs shared between routes)."""
+    loops = [n for n in own_nodes(f.node) if isinstance(n, ast.While) and any(isinstance(c, ast.Call) and ast.unparse(c.func) == "bfs" for c in ast.walk(n.test))]
+    ctx.require(len(loops) == 1, "the augmenting loop `while path := bfs()` is not found once")
+    inside = {id(x) for x in ast.walk(loops[0])}
+    late = []
+    for n in own_nodes(f.node):
+        if isinstance(n, ast.AugAssign) and id(n) not in inside:
+            t_ = n.target
+            b_ = t_
+            while isinstance(b_, ast.Subscript):
+                b_ = b_.value
+            if isinstance(b_, ast.Name) and b_.id in ("flow", "total_flow") and (isinstance(t_, ast.Subscript) or b_.id == "total_flow"):
+                late.append(n)
+    ctx.ob("C08-O3", "R27 WRITE-OWNERSHIP", f, "flow entries and the total are increased only inside the augmenting loop", not late, f"`{ast.unparse(late[0])[:60]}` runs outside the loop: flow that is not the bottleneck of a path found in the residual network can exceed a capacity shared by several routes (parallel arcs into one node, a self loop)" if late else "", node=late[0] if late else f.node)
+
+
 def run(ctx: Ctx):
     f = ctx.func("flow", "max_flow")
     ctx.step(flow_table_starts_at_zero, f)
+    ctx.step(_flow_written_only_while_augmenting, f)
     ctx.assume("node labels are equal to themselves (x == x): a NaN label is never recognised as the sink by `node == sink`")
     bfs = ctx.func("flow", "max_flow.bfs")
     ctx.step(adjacency_symmetry, f, bfs, "C08-O1")
@@ -377,7 +397,17 @@ def _v_flow_table_from_capacities(tree):
         raise M.Skip("flow table definition not found")
 
 
+def _v_warm_start_two_hop_routes(tree):
+    g = M.find_func(tree, "max_flow")
+    k = [i for i, st in enumerate(g.body) if isinstance(st, ast.FunctionDef) and st.name == "bfs"]
+    if not k:
+        raise M.Skip("bfs closure not found")
+    g.body[k[0]:k[0]] = M.stmts("for m, cap, *_ in graph.get(source, ()):\n    push = min(cap, capacity[m].get(sink, 0))\n    if push > 0:\n        flow[source][m] += push\n        flow[m][sink] += push\n        total_flow += push")
+
+
 VARIANTS = [
+    M.Variant("warm start fills two-hop routes by hand before the first search (seed C08-Q)", FL, _v_warm_start_two_hop_routes, "C08-O3"),
+
     M.Variant("the table returned as flow values starts as a copy of the capacities (seed C08-K)", FL, _v_flow_table_from_capacities, "C08-O4"),
     M.Variant("residual moved into a helper and parenthesised: reverse flow subtracted instead of added (seed C08-L)", FL, _v_residual_helper_wrong_sign, "C08-O2"),
     M.Variant("twin: residual moved into a one-expression helper", FL, _t_residual_helper, None),
